@@ -510,8 +510,46 @@ def _expand(prog: Program, fn: Func, e: ast.AST, depth: int = 0) -> str:
     return t
 
 
+def _import_component(prog: Program, fn: Func, e: ast.AST, depth: int = 0, seen=None):
+    """(an operand of the expression is made of the names the module IMPORTS, those names are reduced to what the import BINDS).
+    Follows single-definition locals, single-return helpers and repository calls; a function is import-derived if it reads
+    the aliases of import statements (`.names` of Import / ImportFrom nodes) or calls such a function; the reduction is a
+    `.split('.')[0]` / `.partition('.')[0]` on the way (`import os.path` binds `os`)."""
+    seen = seen if seen is not None else set()
+    present, reduced = False, False
+    if depth > 4:
+        return present, reduced
+    for x in ast.walk(e):
+        if isinstance(x, ast.Name) and isinstance(x.ctx, ast.Load):
+            ds = [d for _, d in assignments(fn, x.id) if d is not None]
+            if len(ds) == 1 and ds[0] is not e and id(ds[0]) not in seen:
+                seen.add(id(ds[0]))
+                p2, r2 = _import_component(prog, fn, ds[0], depth + 1, seen)
+                present, reduced = present or p2, reduced or r2
+        if isinstance(x, ast.Call):
+            r = prog.resolve_call(x.func, fn.mod, fn)
+            if r and r[0] == "fn" and r[1].key not in seen:
+                seen.add(r[1].key)
+                callee = r[1]
+                body_text = norm(callee.node)
+                direct = (".names" in body_text and (".asname" in body_text or "Import" in body_text)) or "ast.alias" in body_text
+                p2, r2 = False, False
+                for y in walk_own(callee.node):
+                    if isinstance(y, ast.Return) and y.value is not None:
+                        a2, b2 = _import_component(prog, callee, y.value, depth + 1, seen)
+                        p2, r2 = p2 or a2, r2 or b2
+                if direct or p2:
+                    present = True
+                    red_here = ".split('.')[0]" in body_text or ".partition('.')[0]" in body_text
+                    reduced = reduced or r2 or red_here
+    t = norm(e)
+    if present and (".split('.')[0]" in t or ".partition('.')[0]" in t):
+        reduced = True
+    return present, reduced
+
+
 def _r19_2(prog: Program, res: Result) -> None:
-    need = {"PYTHON_KEYWORDS": "keywords", "BUILTIN_FUNCTIONS": "builtins", "get_imported_names": "imported names"}
+    need = {"PYTHON_KEYWORDS": "keywords", "BUILTIN_FUNCTIONS": "builtins"}
     for m, q, extra in (("fixes", "align_variable_names_with_convention", {"get_defined_names": "defined names"}), ("fixes", "_fix_variable_names", {})):
         fn = prog.func(m, q)
         # the blacklist is a collection that new names are tested against (`X.isdisjoint(names)` / `name in X`) and that
@@ -524,7 +562,7 @@ def _r19_2(prog: Program, res: Result) -> None:
             elif isinstance(n, ast.Compare) and len(n.ops) == 1 and isinstance(n.ops[0], (ast.In, ast.NotIn)) \
                     and not isinstance(n.comparators[0], (ast.Tuple, ast.List, ast.Set, ast.Constant)):
                 coll = n.comparators[0]
-            if coll is not None and any(key in _expand(prog, fn, coll) for key in need):
+            if coll is not None and (any(key in _expand(prog, fn, coll) for key in need) or _import_component(prog, fn, coll)[0]):
                 tests.append((n, coll))
         if not tests:
             res.bad("R19.2", fn.loc(), fn.fq, "blacklist applied", "new names are not tested against any collection of forbidden names")
@@ -533,6 +571,13 @@ def _r19_2(prog: Program, res: Result) -> None:
         t = _expand(prog, fn, coll)
         for key, what in {**need, **extra}.items():
             res.decide(key in t, "R19.2", fn.loc(site), fn.fq, f"blacklist contains {what}", "component present" if key in t else f"new names are not checked against {what}")
+        present, reduced = _import_component(prog, fn, coll)
+        res.decide(present, "R19.2", fn.loc(site), fn.fq, "blacklist contains imported names", "component present" if present else "new names are not checked against imported names")
+        if present:
+            res.decide(reduced, "R19.2", fn.loc(site), fn.fq, "imported names as the imports BIND them",
+                       "`import a.b` contributes `a`" if reduced else
+                       "the imported names are the dotted module names: `import os.path` contributes 'os.path', which no identifier equals, so a variable can be renamed to `os` "
+                       "and shadows the module")
         res.ok("R19.2", fn.loc(site), fn.fq, "blacklist applied", f"substitutes are tested against it ({short(site, 50)})")
 
 
@@ -733,6 +778,10 @@ def _r19_7(prog: Program, res: Result) -> None:
 from ..selftest import Variant  # noqa: E402
 
 VARIANTS: List[Variant] = [
+    Variant("blacklist-of-dotted-import-names", "FIRE", "fixes",
+            "    return (\n        tracing.get_import_bound_names(ast_tree)\n        | constants.BUILTIN_FUNCTIONS", "    return (\n        tracing.get_imported_names(ast_tree)\n        | constants.BUILTIN_FUNCTIONS", "R19.2"),
+    Variant("bound-import-names-computed-in-place", "SILENT", "fixes",
+            "    return (\n        tracing.get_import_bound_names(ast_tree)\n        | constants.BUILTIN_FUNCTIONS", "    return (\n        {name.split(\".\")[0] for name in tracing.get_imported_names(ast_tree)}\n        | constants.BUILTIN_FUNCTIONS"),
     Variant("receiver-recorded-instead-of-member", "FIRE", "object_oriented", "                attributes_to_preserve.add(node.attr)  # x.f() may be a call of any method named f", "                attributes_to_preserve.add(node.value.id)", "R19.7"),
     Variant("last-line-of-class-excluded", "FIRE", "object_oriented", "            if classdef.lineno < node.lineno <= classdef.end_lineno:  # The last line is part of it", "            if classdef.lineno < node.lineno < classdef.end_lineno:", "R19.7"),
     Variant("class-containment-written-with-and", "SILENT", "object_oriented", "            if classdef.lineno < node.lineno <= classdef.end_lineno:  # The last line is part of it", "            if node.lineno > classdef.lineno and classdef.end_lineno >= node.lineno:"),
